@@ -252,7 +252,21 @@ def load_known_findings(pid):
     path = os.path.join(VERIF_DIR, 'known_findings.json')
     with open(path) as f:
         data = json.load(f)
-    return [f for f in data.get('findings', []) if f.get('property') == pid]
+    findings = list(data.get('findings', []))
+    extra = os.path.join(VERIF_DIR, 'known_findings.d')
+    if os.path.isdir(extra):
+        for name in sorted(os.listdir(extra)):
+            if name.endswith('.json'):
+                with open(os.path.join(extra, name)) as f:
+                    findings.extend(json.load(f).get('findings', []))
+    return [f for f in findings if f.get('property') == pid]
+
+
+def open_signatures(pid):
+    """Signatures of the open (unrepaired) known findings of a property.  Generators use this to
+    exclude exactly those constructs by construction (and count what they excluded) so that the
+    search continues behind a known defect; once a finding is marked fixed the exclusion vanishes."""
+    return set(f['signature'] for f in load_known_findings(pid) if f.get('status') == 'open')
 
 
 def write_evidence(pid, tier, seed, level, stats, rule, assumptions, wall_s, n_new, exhaustive=None,
